@@ -1,4 +1,4 @@
-use crate::rt::object;
+use crate::rt::object::{self, Action};
 use crate::rt::{thread, Access, Location, Synchronize, VersionVec};
 
 use std::sync::atomic::Ordering::{Acquire, Release};
@@ -47,7 +47,7 @@ impl Mutex {
     }
 
     pub(crate) fn try_acquire_lock(&self, location: Location) -> bool {
-        self.state.branch_opaque(location);
+        self.state.branch_action(Action::OpaqueTry, location);
         self.post_acquire()
     }
 
@@ -119,7 +119,11 @@ impl Mutex {
                 }
 
                 if let Some(operation) = thread.operation.as_ref() {
-                    if operation.object() == self.state.erase() {
+                    // A pending `try_lock` does not wait for the lock: it must
+                    // stay runnable so that it can observe the lock as held.
+                    if operation.object() == self.state.erase()
+                        && operation.action() != Action::OpaqueTry
+                    {
                         let location = operation.location();
                         trace!(state = ?self.state, thread = ?id,
                             "Mutex::post_acquire");
